@@ -204,7 +204,7 @@ Definition f_functions_of (s1 s2 s3 : text) (t1 : tspec) (isa1 isa2 : cls) (cls1
            (_ : cls) (l : list node) : res (list node) :=
   let has_create := existsb (fun tk => text_eqb (upper (nvalue tk)) s1) l in
   let has_table := existsb (fun tk => text_eqb (upper (nvalue tk)) s2) l in
-  let has_as := existsb (fun tk => text_eqb (nvalue tk) s3) l in
+  let has_as := existsb (fun tk => text_eqb (upper (nvalue tk)) s3) l in
   if has_create && has_table && negb has_as then Ok l else
   scan (next_by_from [] [] t1)
        (fun tidx _ l =>
